@@ -61,6 +61,16 @@ func main() {
 	if *tier == "" {
 		*tier = "quick"
 	}
+	if *prop == "all" {
+		// development aid: every property on one loaded program (the registered checks run one property per process)
+		os.Unsetenv("GOWORK")
+		goroot := os.Getenv("YV_GOROOT")
+		if goroot == "" {
+			goroot = "/opt/veriftools/go1.26.8"
+		}
+		os.Setenv("PATH", goroot+"/bin:"+os.Getenv("PATH"))
+		os.Exit(runAll(*tier, *repo, *verifd))
+	}
 	f := props[*prop]
 	if f == nil {
 		fmt.Fprintf(os.Stderr, "unknown property %q\n", *prop)
@@ -141,4 +151,37 @@ func run(prop, tier, repo, verifd string, f propFn) (code int) {
 		fmt.Printf("%s selftest: %d stored changes re-applied as overlays: %d seeded fired, %d missed or false alarm, %d skipped, %d refactorings silent\n", prop, len(vs), fired, missed, skipped, silent)
 	}
 	return r.Finish(verifd)
+}
+
+func runAll(tier, repo, verifd string) int {
+	w, err := NewWorld(repo, verifd, false)
+	if err != nil {
+		fmt.Fprintf(os.Stderr, "yvcheck: cannot analyse %s: %v\n", repo, err)
+		return 2
+	}
+	defer w.Close()
+	var ids []string
+	for k := range props {
+		ids = append(ids, k)
+	}
+	sort.Strings(ids)
+	worst := 0
+	for _, id := range ids {
+		code := func() (code int) {
+			defer func() {
+				if x := recover(); x != nil {
+					fmt.Printf("PROPERTY %s internal error: %v\n", id, x)
+					code = 2
+				}
+			}()
+			fmt.Printf("PROPERTY %s\n", id)
+			r := NewReport(id, tier, w)
+			props[id](w, r)
+			return r.Finish(verifd)
+		}()
+		if code > worst {
+			worst = code
+		}
+	}
+	return worst
 }
